@@ -128,8 +128,40 @@ def slice_desc(eng, st, s):
                 pos = pos + sl
             if started and acc and tot == s.len:
                 return acc[0][1] if len(acc) == 1 else ("cat", tuple(acc))
+        part = _sub_octets(eng, st, tgt.segs, s.start, s.len)
+        if part is not None:
+            return part
         return ("vec", b, tgt.name, s.start, s.len, eng.region_state(st, b, tgt, s))
     return ("?", b)
+
+
+def _sub_octets(eng, st, segs, start, ln):
+    """a constant sub-range of a buffer whose leading segments are octets known one by one (constants, individually
+    computed octets, to_be_bytes results): those octets"""
+    if segs is None or not (start.is_const() and ln.is_const()) or ln.c > 64:
+        return None
+    octs = []
+    need = start.c + ln.c
+    for sl, sd in segs:
+        if len(octs) >= need:
+            break
+        if not sl.is_const():
+            return None
+        if sd[0] == "const":
+            octs.extend(eng.const_int(eng.u8_ty(), c) for c in sd[1])
+        elif sd[0] == "elems":
+            octs.extend(sd[1])
+        elif sd[0] == "be" and isinstance(sd[1], VInt) and sd[2]:
+            arr = VArr(sd[2], None, None, sd)
+            octs.extend(eng.unknown_elem(st, arr, i) for i in range(sd[2]))
+        else:
+            return None
+    if len(octs) < need:
+        return None
+    es = octs[start.c:need]
+    if all(isinstance(e, VInt) and e.lin.is_const() for e in es):
+        return ("const", tuple(e.lin.c for e in es))
+    return ("elems", tuple(es))
 
 
 def mk_option(eng, dty, some, val=None):
